@@ -293,10 +293,19 @@ class EDXMLParserBase(object):
             # an ontology element in the tree and try to process it. That
             # will yield a better exception message than the errors
             # produced by the RelaxNG validator.
+            # The element is rejected: it must not reach the ontology of the parser
+            # or its callbacks, so we process a scratch copy of the ontology.
+            scratch = copy.deepcopy(self._ontology) if self._ontology is not None else Ontology()
             for element in self.__root_element.iterfind('{http://edxml.org/edxml}ontology'):
                 if self.__root_element.index(element) <= position:
                     try:
-                        self.__process_ontology(element)
+                        scratch.update(element)
+                    except EDXMLOntologyValidationError as exception:
+                        exception.message = "Invalid ontology definition detected: %s\n%s" % (
+                            etree.tostring(element, pretty_print=True, encoding='unicode'),
+                            exception
+                        )
+                        raise
                     except EDXMLValidationError:
                         raise
                     except Exception:
